@@ -57,6 +57,15 @@ def fresh_equal(s):
     return wire.mkstate(wire.cstate(s))
 
 
+def safe_hash(ctx, s, what):
+    """hash(s), or None after recording that a state cannot be hashed (states are hashable: they compare by value and are used as keys)"""
+    try:
+        return hash(s)
+    except Exception as e:  # noqa: BLE001
+        ctx.violation(f'{what}: hashing a state raised {type(e).__name__}: {e}', {'state': gen.show_state(wire.cstate(s))})
+        return None
+
+
 def check_step(ctx, env, desc, s, a, r, label, hist):
     """one functional step with all monitors; returns the next state or None"""
     before = wire.cstate(s)
@@ -138,7 +147,7 @@ def histories(ctx):
             for _t in range(r.randint(2, 9)):
                 ev = r.random()
                 if r.random() < 0.5:
-                    hash(s)                                                  # hashing a state must not change anything later
+                    safe_hash(ctx, s, 'history')   # hashing a state must not change anything later
                     hist.append('hash')
                 if ev < 0.1:
                     o = r.choice(others)                                      # other calls on other environments
@@ -182,10 +191,10 @@ def histories(ctx):
                     ctx.violation(f'functional_observation raised {type(e).__name__}', case)
                 # equal states hash alike, whatever their history; copies equal their original
                 f = fresh_equal(s)
-                if s != f or hash(s) != hash(f):
+                if s != f or safe_hash(ctx, s, 'history') != safe_hash(ctx, f, 'fresh equal state'):
                     ctx.violation('a state with a history and a freshly built equal state differ in == or hash', case)
                 c = pickle.loads(pickle.dumps(s))
-                if c != s or hash(c) != hash(s):
+                if c != s or safe_hash(ctx, c, 'copy') != safe_hash(ctx, s, 'original'):
                     ctx.violation('a copied state does not equal / hash like its original', case)
                 with impl.Journal(r.randrange(1 << 30)) as j:
                     saved, env._rng = env._rng, j.own
@@ -266,6 +275,40 @@ def aliasing_after_the_fact(ctx):
                 ctx.violation(f'mutating {names[which]} afterwards changed {names[i]}', case)
 
 
+def large_view_histories(ctx):
+    """history-independence where hidden shared state would matter most: deterministic observations with LARGE views (hundreds of rays)
+    are recorded, then the stochastic observation function and other view sizes are used on other states, then the same questions are
+    asked again -- same answers.  (With 7x7 views a few extra or missing rays rarely change a mask; with 11x11 and 9x13 views they do.)"""
+    import numpy as np
+    r = ctx.rng
+    views = [(-10, 0, -5, 5), (-8, 0, -6, 6), (-12, 0, -3, 3)]
+    recorded = []
+    for area in views:
+        for _ in range(60 if ctx.tier == 'quick' else 300):
+            h, w = r.randint(11, 15), r.randint(11, 15)
+            g = tuple(tuple(gen.WALL if r.random() < 0.22 else gen.FLOOR for _ in range(w)) for _ in range(h))
+            p, o = (r.randrange(h), r.randrange(w)), r.randrange(4)
+            g = gen.set_cell(g, p, gen.FLOOR)
+            cs = (g, p, o, gen.NONE)
+            f = comp.build_obs({'name': 'raytracing', 'area': area})
+            recorded.append((area, cs, wire.cstate(f(wire.mkstate(cs)))))
+    # other activity: the stochastic variant with the same and other view sizes, on other states
+    for area in views + [(-6, 0, -3, 3), (-4, 0, -2, 2)]:
+        fs = comp.build_obs({'name': 'stochastic_raytracing', 'area': area})
+        for _ in range(4):
+            h, w = r.randint(11, 15), r.randint(11, 15)
+            g = tuple(tuple(gen.WALL if r.random() < 0.22 else gen.FLOOR for _ in range(w)) for _ in range(h))
+            p = (r.randrange(h), r.randrange(w))
+            fs(wire.mkstate((gen.set_cell(g, p, gen.FLOOR), p, r.randrange(4), gen.NONE)), rng=np.random.default_rng(r.randrange(1 << 30)))
+    for area, cs, before in recorded:
+        f = comp.build_obs({'name': 'raytracing', 'area': area})
+        ctx.case(('large-view-history', area, cs), True, None)
+        ctx.count('large view asked again', f'{area[1] - area[0] + 1}x{area[3] - area[2] + 1}')
+        if wire.cstate(f(wire.mkstate(cs))) != before:
+            ctx.violation('functional_observation (raytracing) of the same state changed after the stochastic observation function was used on other states',
+                          {'area': area, 'state': gen.show_state(cs), 'wire_state': cs})
+
+
 def run(ctx):
     ctx.notes['explanation'] = ('Level `other`: Props/C03.v proves the frame theorem for copy-then-mutate over an abstract heap (and == iff equal hash keys); that the '
                                 'CPython objects satisfy its hypotheses cannot be proved in Coq and is monitored here: arguments structurally unchanged, no shared '
@@ -276,6 +319,7 @@ def run(ctx):
                 'id-graph disjointness, structural snapshots, fresh-equal-state comparisons, model comparison; after-the-fact mutation probes; non-trivial = every event')
     histories(ctx)
     aliasing_after_the_fact(ctx)
+    large_view_histories(ctx)
 
 
 if __name__ == '__main__':
